@@ -36,10 +36,15 @@ def judge(ctx, jobs, chunks, recs, leg):
         if "hang" in rec:
             si = rec["hang"].get("step", 0)
             text = chunk[(si - 1) // 2][1] if si >= 1 and (si - 1) // 2 < len(chunk) else None
-            ctx.count("excluded_hang_wall_clock"); ctx.inconclusive_cases += 1
+            ctx.count("hang_wall_clock")
             ctx.observed.setdefault("hang_inputs", [])
             if len(ctx.observed["hang_inputs"]) < 5:
                 ctx.observed["hang_inputs"].append(text)
+            ctx.hangs = getattr(ctx, "hangs", [])
+            if text is not None and leg in ("dev", "release") and text not in [t for t, _ in ctx.hangs]:
+                ctx.hangs.append((text, leg))
+            else:
+                ctx.inconclusive_cases += 1
             continue
         if "abort" in rec:
             # abort before any record: attribute through the marker "<id> <step>"
@@ -118,6 +123,8 @@ def gen_inputs(ctx, tier):
         inputs.append(("macro_soup", gen_text.macro_soup(rng)))
     for _ in range(nmac):
         inputs.append(("macro_fuzz", gen_text.macro_fuzz(rng)))
+    for _ in range(nmac // 2):
+        inputs.append(("procedure_values", gen_text.procedure_values(rng)))
     # every exported procedure called with 0..3 arguments of assorted types, directly and from tail positions
     args_pool = ["1", "'a", "'(1 2)", "#(1 2)", "car", "\"s\"", "-1", "1/2", "1.5", "'()", "#t"]
     for name in gen_text.stdlib_exports():
@@ -191,6 +198,13 @@ def file_leg(ctx):
         "imports_macro_lib2.scm": b"(import (scheme base) (maclib two))\n1\n",
         "maclib.sld": b"(define-library (maclib) (import (scheme base)) (export a) (begin (define-syntax cond (syntax-rules () ((cond c ...) 'hijacked))) (define-syntax and (syntax-rules () ((and c ...) 'hijacked))) (define a (cond (#t 1)))))",
         "maclib/two.sld": b"(define-syntax let (syntax-rules () ((let b ...) 'hijacked)))\n(define-library (maclib two) (import (scheme base)) (export nothing-defined) (begin (define-syntax or (syntax-rules () ((or c ...) 'hijacked))) (define b 2)))",
+        # import cycles between library files, the import that closes the cycle standing in a second declaration / behind an import set
+        "imports_cycle.scm": b"(import (scheme base) (cyca))\n1\n",
+        "imports_cycle2.scm": b"(import (scheme base))\n(import (only (cycc) c))\n1\n",
+        "cyca.sld": b"(define-library (cyca) (import (scheme base)) (import (cycb)) (export a) (begin (define a 1)))",
+        "cycb.sld": b"(define-library (cycb) (import (scheme base)) (import (scheme write)) (import (cyca)) (export b) (begin (define b 2)))",
+        "cycc.sld": b"(define-library (cycc) (import (scheme base) (prefix (cycd) d-)) (export c) (begin (define c 3)))",
+        "cycd.sld": b"(define-library (cycd) (import (scheme base)) (import (rename (cycc) (c cc))) (export d) (begin (define d 4)))",
         "emptylib.sld": b"",
         "trunclib.sld": b"(define-library (trunclib) (export a) (begin (define a 1)",
     }
@@ -253,7 +267,8 @@ def run(tier, seed):
                 "sources, hostile Unicode/control characters, boundary arithmetic, bad program/library files (API and CLI). "
                 "distinct_nontrivial = distinct (input class, outcome kind) pairs, distinct error variants reached and distinct file cases: "
                 "the behaviours the monitor actually saw" % "".join(gen_text.ALPHA20))
-    ctx.assumptions = ["inputs nest to bounded depth; non-termination (fuel), allocation failure and deep recursion are outside the claim and counted as inconclusive cases",
+    ctx.assumptions = ["inputs nest to bounded depth; non-termination of the program (cut off by the application budget), allocation failure and deep recursion are outside the claim and counted as inconclusive cases",
+                       "a step that outlives the wall-clock watchdog although the application budget is armed is re-run alone; failing to finish twice is a violation (the interpreter itself loops), once is inconclusive",
                        "catch_unwind boundary at Interpreter::eval; stack overflow and abort are detected as process death and attributed through a marker file"]
     inputs = gen_inputs(ctx, tier)
     legs = ["dev"] if tier == "quick" else ["dev", "release"]
@@ -264,6 +279,7 @@ def run(tier, seed):
         recs = core.run_jobs(jobs, leg, timeout=240 if tier == "quick" else 1500, tag="c07", env_extra={})
         judge(ctx, jobs, chunks, recs, leg)
         ctx.legs.append(leg)
+    confirm_hangs(ctx)
     if core.PART_I == 0:
         file_leg(ctx)
         ctx.legs.append("files(api+cli)")
@@ -272,6 +288,25 @@ def run(tier, seed):
     for cls, text in inputs[:3] + inputs[len(inputs) // 2: len(inputs) // 2 + 3]:
         ctx.sample({"class": cls, "input": text})
     return ctx.finish(min_evals=1000, min_nontrivial=10)
+
+
+def confirm_hangs(ctx):
+    """a step that did not finish within the per-step watchdog although the program's own looping is cut off by the application budget (fuel 20000,
+    a few milliseconds): the interpreter itself loops or recurses.  Each such input is run again alone, with a longer watchdog; only if it again
+    fails to finish (or now dies) it is a violation - otherwise the machine was merely loaded and the case stays inconclusive"""
+    hangs = getattr(ctx, "hangs", [])
+    for text, leg in hangs[:6]:
+        jobs = make_jobs([("hang-retry", text)], 1)
+        recs = core.run_jobs(jobs, leg, shards=1, timeout=1800, tag="c07h", env_extra={"RVDRIVE_STEP_TIMEOUT_MS": "90000"})
+        rec = recs[0] if recs else None
+        if rec is not None and ("hang" in rec or "abort" in rec):
+            how = "does not finish within 90 s" if "hang" in rec else "dies (%s)" % str((rec["abort"].get("stderr") or "")[-80:]).strip()
+            ctx.violation({"kind": "hang", "what": "the interpreter %s on an input whose own procedure applications are bounded by the step budget: it loops or recurses internally" % how,
+                           "input": text, "leg": leg, "dedupe": "hang"}, {"input": text})
+        else:
+            ctx.count("hang_not_reproduced"); ctx.inconclusive_cases += 1
+    for _ in hangs[6:]:
+        ctx.inconclusive_cases += 1
 
 
 def sanitizer_legs(ctx, inputs):
